@@ -67,6 +67,17 @@ E2E = {
 }
 
 
+# situations always enumerated in addition to those derived from the TLC behaviours:
+# a passthrough snapshot hook that was released once and has no new version, next to a batch hook
+EXTRA_SITUATIONS = [
+    {"hooks": ["pass", "ord"], "steps": [["enq", 1, 1, 1001], ["enq", 2, 1, 2001], ["tick", []], ["enq", 2, 1, 2002], ["tick*"]]},
+    {"hooks": ["unord", "pass"], "steps": [["enq", 2, 1, 2001], ["enq", 1, 1, 1001], ["tick", []], ["enq", 1, 1, 1002], ["tick*"]]},
+]
+# development knob (sandbox mutation runs of the hook-level parts only): skip the trybuild-based
+# end-to-end programs.  Never set by ./check users; the evidence records it.
+NO_E2E = bool(os.environ.get("VERIF_SIMHOOKS_NO_E2E"))
+
+
 def _impl_cfg(name, maxhooks, maxq, maxkq, maxq2, rounds, top):
     p = os.path.join(vlib.rundir("cfg"), name)
     with open(p, "w") as f:
@@ -107,7 +118,7 @@ def _validate(trace, what, results):
     cov = vlib.printed_json(r, "COV")
     covered = vlib.printed_json(r, "COVERED")
     detail = vlib.printed_json(r, "COVER")
-    return (viol[0] if viol else []), (cov[0] if cov else []), covered, detail
+    return (viol[0] if viol else []), (cov[0] if cov else []), covered, detail, r
 
 
 def _rule_fp(rule, hooks):
@@ -150,6 +161,7 @@ def _enum_configs(cases, limit, rnd):
                 rest.append(c)
         out = [c for v in by.values() for c in v]
         out += rest[:max(0, limit - len(out))]
+    out += [dict(c) for c in EXTRA_SITUATIONS]
     for i, c in enumerate(out):
         c["id"] = i + 1
     return out, total
@@ -181,7 +193,7 @@ def _replay_validate(trace, what, res):
         res.add_tlc(r, "replay-validation:" + what)
     viol = vlib.printed_json(r, "VIOL")
     stats = vlib.printed_json(r, "STATS")
-    return (viol[0] if viol else []), (stats[0] if stats else {})
+    return (viol[0] if viol else []), (stats[0] if stats else {}), r
 
 
 def run(tier):
@@ -198,17 +210,33 @@ def run(tier):
 
     # ---- jobs that do not depend on each other run side by side -------------------------------
     with concurrent.futures.ThreadPoolExecutor(max_workers=4) as ex:
-        f_single = ex.submit(_impl_job, "sh_single", 1, 3, 2, 2 if thorough else 1, 3 if thorough else 2, True)
+        f_single = ex.submit(_impl_job, "sh_single", 1, 3, 2, 1, 3 if thorough else 2, True)
         f_pairs = ex.submit(_impl_job, "sh_pairs", 2, 2, 1, 1 if thorough else 0, 2 if thorough else 1, False)
         f_mc = ex.submit(vlib.tlc, SD, "SimHooksMC", workers=1, timeout=900, tag="sh_mc")
 
         def e2e():
+            if NO_E2E:
+                return None, None, {"skipped": True}
             a = _run_e2e(sim_exe, d, progs, nrepro, "A")
             b = _run_e2e(sim_exe, d, progs, nrepro, "B")
             return a, b, _run_p5(sim_exe, d)
         f_e2e = ex.submit(e2e)
+        ndet = 3000 if thorough else 400
+
+        def det():
+            parts, dsumm = [], None
+            for tag in ("A", "B"):
+                o = os.path.join(d, "det_%s.ndjson" % tag)
+                p = vlib.run_bin(hooks_exe, ["det", ndet, tag, o], timeout=1200)
+                if p.returncode != 0:
+                    raise vlib.ToolError("hooks det failed: " + p.stderr[-2000:])
+                parts.append(o)
+                dsumm = json.loads(p.stdout.strip().splitlines()[-1])
+            return parts, dsumm
+        f_det = ex.submit(det)
         r_single, r_pairs, r_mc = f_single.result(), f_pairs.result(), f_mc.result()
         e2e_a, e2e_b, p5 = f_e2e.result()
+        parts, dsumm = f_det.result()
 
     # ---- (1) design level ---------------------------------------------------------------------
     for res in (c36, c37):
@@ -231,6 +259,12 @@ def run(tier):
             seen.add(k)
             uniq.append(c)
     cases = uniq
+    c36.extra["tlc_behaviours"] = len(cases)
+    cap = 60000
+    if len(cases) > cap:     # thorough tier: replay a seeded sample (all behaviours were model-checked)
+        rnd.shuffle(cases)
+        cases = cases[:cap]
+    c36.extra["tlc_behaviours_replayed"] = len(cases)
     for i, c in enumerate(cases):
         c["id"] = i + 1
     casefile = os.path.join(d, "cases.ndjson")
@@ -240,7 +274,32 @@ def run(tier):
     if p.returncode != 0:
         raise vlib.ToolError("hooks replay failed: " + p.stderr[-2000:])
     summ = json.loads(p.stdout.strip().splitlines()[-1])
-    viol, _cov, _c, _dt = _validate(rtrace, "replay", [c36])
+    pool = concurrent.futures.ThreadPoolExecutor(max_workers=4)
+    f_rv = pool.submit(_validate, rtrace, "replay", [])
+
+    def enum_job():
+        configs, total_cfg = _enum_configs(cases, 6000 if thorough else 900, rnd)
+        cfgfile = os.path.join(d, "configs.ndjson")
+        vlib.write_ndjson(cfgfile, configs)
+        etrace = os.path.join(d, "enum_trace.ndjson")
+        p = vlib.run_bin(hooks_exe, ["enum", cfgfile, etrace], timeout=2400)
+        if p.returncode != 0:
+            raise vlib.ToolError("hooks enum failed: " + p.stderr[-2000:])
+        esumm = json.loads(p.stdout.strip().splitlines()[-1])
+        return configs, total_cfg, etrace, esumm, _validate(etrace, "enum", [])
+    f_en = pool.submit(enum_job)
+
+    def det_job():
+        runs = []
+        for f in parts + ([] if NO_E2E else [e2e_a, e2e_b]):
+            runs += [e for e in vlib.read_ndjson(f) if e.get("e") == "run"]
+        dtrace = os.path.join(d, "replay_det_trace.ndjson")
+        vlib.write_ndjson(dtrace, runs + [{"e": "eof"}])
+        return runs, dtrace, _replay_validate(dtrace, "runs", None)
+    f_dv = pool.submit(det_job)
+
+    viol, _cov, _c, _dt, r_rv = f_rv.result()
+    c36.add_tlc(r_rv, "trace-validation:replay")
     c36.traces += summ["cases"]
     c36.evaluations += summ["cases"]
     nontrivial = [c for c in cases if any(len(pr["reqs"]) >= 1 for pr in c["pred"])]
@@ -255,15 +314,9 @@ def run(tier):
                         "hooks": mid["hooks"], "steps": mid["steps"], "predicted": mid["pred"]})
 
     # ---- (3) code -> spec: enumerate the real decision trees ----------------------------------
-    configs, total_cfg = _enum_configs(cases, 6000 if thorough else 900, rnd)
-    cfgfile = os.path.join(d, "configs.ndjson")
-    vlib.write_ndjson(cfgfile, configs)
-    etrace = os.path.join(d, "enum_trace.ndjson")
-    p = vlib.run_bin(hooks_exe, ["enum", cfgfile, etrace], timeout=2400)
-    if p.returncode != 0:
-        raise vlib.ToolError("hooks enum failed: " + p.stderr[-2000:])
-    esumm = json.loads(p.stdout.strip().splitlines()[-1])
-    viol, cov, covered, detail = _validate(etrace, "enum", [c36, c37])
+    configs, total_cfg, etrace, esumm, (viol, cov, covered, detail, r_ev) = f_en.result()
+    for res in (c36, c37):
+        res.add_tlc(r_ev, "trace-validation:enum")
     runs = esumm["dfs_runs"] + esumm["exhaustive_runs"]
     c36.traces += runs
     c36.evaluations += runs
@@ -303,12 +356,12 @@ def run(tier):
         if t["prog"] in E2E:
             trails.setdefault(t["prog"], set()).add(json.dumps([E2E[t["prog"]](rd) for rd in t["trail"]]))
     observed, instances = {}, {}
-    for e in vlib.read_ndjson(e2e_a):
+    for e in (vlib.read_ndjson(e2e_a) if e2e_a else []):
         if e.get("e") == "instance":
             observed.setdefault(e["prog"], set()).add(json.dumps(e["out"]))
             instances[e["prog"]] = instances.get(e["prog"], 0) + 1
     e2e_info = {}
-    for prog in progs:
+    for prog in ([] if NO_E2E else progs):
         spec, obs = trails.get(prog, set()), observed.get(prog, set())
         if not spec or not obs:
             raise vlib.ToolError("end-to-end program %s: no trails (%d) or no instances (%d)" % (prog, len(spec), len(obs)))
@@ -326,25 +379,17 @@ def run(tier):
                           {"kind": "e2e", "prog": prog, "extra": json.loads(o), "allowed": sorted(spec)})
     c37.extra["end_to_end"] = e2e_info
     c36.extra["known_finding_witness_p5"] = p5
-    c37.samples.append({"kind": "end-to-end program p4 (two batches in one tick): one tick-output sequence",
-                        "out": json.loads(sorted(observed["p4"])[len(observed["p4"]) // 2])})
+    if not NO_E2E:
+        c37.samples.append({"kind": "end-to-end program p4 (two batches in one tick): one tick-output sequence",
+                            "out": json.loads(sorted(observed["p4"])[len(observed["p4"]) // 2])})
+    else:
+        for res in R.values():
+            res.extra["end_to_end_skipped_by_env"] = True
 
     # ---- (5) C38 ------------------------------------------------------------------------------
-    ndet = 3000 if thorough else 400
-    parts = []
-    for tag in ("A", "B"):
-        o = os.path.join(d, "det_%s.ndjson" % tag)
-        p = vlib.run_bin(hooks_exe, ["det", ndet, tag, o], timeout=1200)
-        if p.returncode != 0:
-            raise vlib.ToolError("hooks det failed: " + p.stderr[-2000:])
-        parts.append(o)
-        dsumm = json.loads(p.stdout.strip().splitlines()[-1])
-    runs = []
-    for f in parts + [e2e_a, e2e_b]:
-        runs += [e for e in vlib.read_ndjson(f) if e.get("e") == "run"]
-    dtrace = os.path.join(d, "replay_det_trace.ndjson")
-    vlib.write_ndjson(dtrace, runs + [{"e": "eof"}])
-    viol, stats = _replay_validate(dtrace, "runs", c38)
+    runs, dtrace, (viol, stats, r_dv) = f_dv.result()
+    c38.add_tlc(r_dv, "replay-validation:runs")
+    pool.shutdown()
     if stats.get("runs") != len(runs) or stats.get("inputs", 0) * 4 != len(runs):
         raise vlib.ToolError("replay trace: %s for %d runs (every input must be run 4 times)" % (stats, len(runs)))
     c38.traces += len(runs)
@@ -397,7 +442,7 @@ def run(tier):
 
 def _canaries(rtrace, etrace, dtrace, d, R):
     # C36: (a) swap two items inside a multi-item batch of an ordered hook, (b) drop a pending item from q
-    evs, cur, kinds, done = vlib.read_ndjson(rtrace)[:4000], None, [], {}
+    evs, cur, kinds, done = vlib.read_ndjson(rtrace)[:1500], None, [], {}
     a = [dict(e) for e in evs]
     for e in a:
         if e.get("e") == "reset":
@@ -419,7 +464,7 @@ def _canaries(rtrace, etrace, dtrace, d, R):
         raise vlib.ToolError("canary: no suitable events found in the replay trace")
     ct = os.path.join(d, "canary_c36.ndjson")
     vlib.write_ndjson(ct, a + ([{"e": "eof"}] if a[-1].get("e") != "eof" else []))
-    viol, _, _, _ = _validate(ct, "canary36", [])
+    viol, _, _, _, _ = _validate(ct, "canary36", [])
     rules = {r for _, r in viol}
     if not ({"ordered-batch-not-a-prefix", "pending-item-lost-or-duplicated"} <= rules):
         raise vlib.ToolError("canary (swapped ordered batch / lost pending item) NOT rejected: %s" % sorted(rules))
@@ -437,7 +482,7 @@ def _canaries(rtrace, etrace, dtrace, d, R):
             seg[-1]["reached"] = seg[-1]["reached"][1:]
             ct = os.path.join(d, "canary_c37.ndjson")
             vlib.write_ndjson(ct, seg + [{"e": "eof"}])
-            _, cov, _, _ = _validate(ct, "canary37", [])
+            _, cov, _, _, _ = _validate(ct, "canary37", [])
             if not any(c[2] == "outcome-not-reached" for c in cov):
                 raise vlib.ToolError("canary (one outcome removed from a cover event) NOT rejected")
             R["C37"].extra["canary"] = "cover event with one outcome removed rejected: %s" % cov[:1]
@@ -453,7 +498,7 @@ def _canaries(rtrace, etrace, dtrace, d, R):
             break
     ct = os.path.join(d, "canary_c38.ndjson")
     vlib.write_ndjson(ct, evs[:400] + [{"e": "eof"}] if i < 400 else evs)
-    viol, _ = _replay_validate(ct, "canary38", None)
+    viol, _, _ = _replay_validate(ct, "canary38", None)
     if not any(v[3] == "outputs-differ" for v in viol):
         raise vlib.ToolError("canary (altered outputs of a replayed run) NOT rejected")
     R["C38"].extra["canary"] = "altered outputs of a replay rejected: %s" % viol[:1]
@@ -467,7 +512,7 @@ def replay(pid, path):
     t = os.path.join(d, "replay_one.ndjson")
     if case.get("kind") == "replay":
         vlib.write_ndjson(t, case["events"] + [{"e": "eof"}])
-        viol, _ = _replay_validate(t, "replay_one", None)
+        viol, _, _ = _replay_validate(t, "replay_one", None)
         print("recorded runs re-validated; differences:", viol)
         return 1 if viol else 0
     if case.get("kind") == "e2e":
@@ -475,7 +520,7 @@ def replay(pid, path):
         print("re-run: harness_hydro/target/release/simprog exhaustive %s 0 A <out>" % case["prog"])
         return 1
     vlib.write_ndjson(t, case["events"] + [{"e": "eof"}])
-    viol, cov, _, detail = _validate(t, "replay_one", [])
+    viol, cov, _, detail, _ = _validate(t, "replay_one", [])
     print("recorded events re-validated; rules broken:", viol, "cover mismatches:", cov)
     for dd in detail:
         print("  ", json.dumps(dd)[:1000])
